@@ -105,6 +105,7 @@ var movKinds = []string{"bool", "int8", "int16", "int32", "int64", "uint8", "uin
 
 func c08(c *Ctx) {
 	o := c.Out
+	defer derefBuildCheck(c) // loads through a dereferenced pointer start from a pointer loaded by that very call
 	rows := translateMov(c.Repo)
 	var rr []string
 	for _, r := range rows {
